@@ -54,6 +54,9 @@ func main() {
 			}
 		}
 		for i, c := range cfgs {
+			if res.TimeUp() {
+				break
+			}
 			n := runC01Case(c, res.Seed*1000003+uint64(i), npeers, keys)
 			res.Eval(n)
 			res.Checkpoint()
@@ -81,6 +84,9 @@ func main() {
 			cfgs[i] = c
 		}
 		for i, c := range cfgs {
+			if res.TimeUp() {
+				break
+			}
 			n := runC02Case(c, res.Seed*1000033+uint64(i), npeers, keys)
 			res.Eval(n)
 			res.Checkpoint()
@@ -98,7 +104,7 @@ func main() {
 		if *vlib.FlagN > 0 {
 			ncase = *vlib.FlagN
 		}
-		for i := 0; i < ncase; i++ {
+		for i := 0; i < ncase && !res.TimeUp(); i++ {
 			c := cfg{Net: []string{"udp", "udp6"}[i%2], Loops: []int{1, 4, 2}[i%3], RCap: []int{65536, 8192, 2048, 65536, 3000, 50000, 65507, 1025}[i%8], WCap: 65536, ReusePort: true}
 			if i%4 == 3 {
 				if ip, zone := linkLocal(); ip != nil {
@@ -134,7 +140,7 @@ func main() {
 			res.Eval(runClientLifeCase(cc, res.Seed*1000519+uint64(k), r.Pick(4, 10), true, k == 0, keys))
 			res.Checkpoint()
 		}
-		for i := 0; i < ncase; i++ {
+		for i := 0; i < ncase && !res.TimeUp(); i++ {
 			c := cfgs[i%len(cfgs)]
 			c.LB = []gnet.LoadBalancing{gnet.LeastConnections, gnet.SourceAddrHash}[i%2] // Engine.Register is documented as not safe with RoundRobin
 			kind := []string{"live", "live", "expired", "soon"}[i%4]
@@ -177,6 +183,9 @@ func main() {
 		nr := map[string]int{}
 		for ci, c := range cfgs {
 			for fi, f := range faultList(c, K) {
+				if res.TimeUp() {
+					break
+				}
 				if mode == "c14" && f.call != vsys.CEpollAdd {
 					continue
 				}
@@ -352,7 +361,7 @@ func runLifeMode(mode string, r *vlib.Rand, keys map[string]struct{}) {
 			res.Checkpoint()
 		}
 	}
-	for i := 0; i < ncase; i++ {
+	for i := 0; i < ncase && !res.TimeUp(); i++ {
 		c := cfgs[i%len(cfgs)]
 		o := lifeOpts{npeers: r.Pick(8, 20, 40), shutdownFrom: "Engine.Stop", moment: "idle"}
 		switch mode {
